@@ -55,6 +55,9 @@ class Config:
         if self.nest:
             d = [rng.choice([2, 3]) for _ in range(4)]
             self.arch = [('lin', d[i], d[i + 1], rng.random() < 0.7) for i in range(3)]
+        if not self.nest and rng.random() < 0.12:
+            d = [rng.choice([2, 3]) for _ in range(7)]
+            self.arch = [('lin', d[i], d[i + 1], rng.random() < 0.7) for i in range(6)]
         # second-order data stored in a dtype different from the factors'
         self.inv32 = rng.random() < 0.25
         # training loop that keeps the .grad tensors alive between iterations (zero_grad(set_to_none=False))
@@ -83,6 +86,7 @@ class Config:
                 'keepgrad': getattr(self, 'keepgrad', False), 'spike': getattr(self, 'spike', None),
                 'inv16': getattr(self, 'inv16', False), 'fac32': getattr(self, 'fac32', False),
                 'perturb_ctor': getattr(self, 'perturb_ctor', False),
+                'hyper_factors': [{k: str(v) for k, v in d_.items()} for d_ in (getattr(self, 'hyper_factors', None) or [])],
                 'hyper': {k: (str(v) if not isinstance(v, list) else [str(x) for x in v]) for k, v in self.hyper.items()},
                 'ops': list(self.ops), 'seed': self.seed, 'sched_seed': getattr(self, 'sched_seed', None),
                 'hyper_changes': [{k: (None if v is None else str(v)) for k, v in ch.items()}
@@ -308,7 +312,8 @@ def make_prog(cfg):
                     if n in ('factor_update_steps', 'inv_update_steps'):
                         return v + 1
                     if n == 'kl_clip':
-                        return 0.37 if v is None else v * 7.0
+                        # (also flips "clipping enabled": number <-> None)
+                        return 0.37 if v is None else (None if cfg.seed % 2 else v * 7.0)
                     if n == 'factor_decay':
                         return 0.3
                     return v * 3.0 + 0.01
@@ -474,8 +479,16 @@ def make_prog(cfg):
                 elif op.startswith('h:'):
                     # scheduler-like change of the constant hyper-parameters between iterations
                     newh = cfg.hyper_changes[int(op[2:])]
-                    for k_, v in newh.items():
-                        setattr(p, '_' + k_, hp_arg(v))
+                    facs = getattr(cfg, 'hyper_factors', None)
+                    if facs and facs[int(op[2:])]:
+                        # through the real LambdaParamScheduler: v <- v * f (intervals: int(v * f)); the resulting values
+                        # (computed by the generator from this law) are what the model is told
+                        from kfac.scheduler import LambdaParamScheduler
+                        LambdaParamScheduler(p, **{k_ + '_lambda': (lambda s_, f_=float(f): f_)
+                                                   for k_, f in facs[int(op[2:])].items()}).step()
+                    else:
+                        for k_, v in newh.items():
+                            setattr(p, '_' + k_, hp_arg(v))
                 out['ops'].append(rec)
         except BaseException as e:  # noqa: BLE001
             out['exc'] = f'{type(e).__name__}: {e}'
@@ -949,6 +962,7 @@ def replay_case(ctx, payload, streams, oracles=()):
     cfg.fac32 = c.get('fac32', False)
     cfg.spike = tuple(c['spike']) if c.get('spike') else None
     cfg.perturb_ctor = c.get('perturb_ctor', False)
+    cfg.hyper_factors = [{k: Fraction(v) for k, v in d_.items()} for d_ in c.get('hyper_factors', [])] or None
     cfg.arch = [tuple(tuple(x) if isinstance(x, list) else x for x in a) for a in c['arch']]
     cfg.ops = list(c['ops'])
 
